@@ -12,7 +12,7 @@ From Coq Require Import String ZArith QArith Bool Arith List Permutation.
 From GT Require Import Base.Sexp Base.UTree Base.Codec Spec.Obs Model.Reroot Model.Outgroup Model.History
      Spec.Unrooted Judge.Common Judge.C05
      Proofs.Unroot Proofs.Splits Proofs.USplits Proofs.C05Main Proofs.OracleSup Proofs.OracleIndex
-     Proofs.C05History Proofs.C05HistorySup Proofs.C05Multi.
+     Proofs.C05History Proofs.C05HistorySup Proofs.C05Judge Proofs.C05Multi.
 Import ListNotations.
 Local Close Scope Q_scope.
 
@@ -173,7 +173,8 @@ Print Assumptions C05_oracle_multi_accepts_model.
 
 (** the judge itself: on any case / observation pair whose fields decode to the trees, the list
     and, tree by tree, the output of the model ([obs_is_model]: no panic; a refusal with a
-    message, or err = "", the model's tree, an empty audit and the tables of ReinitIndexes),
+    message, or err = "", a tree [utree_eqb]-equal to the model's (equal up to Qeq, not
+    necessarily the same term), an empty audit and the tables of ReinitIndexes on it),
     judge_multi answers VOk: per-tree oracles, index clause, correspondence test, and
     [names_after = names] *)
 Theorem C05_judge_multi_accepts_model :
